@@ -105,6 +105,16 @@ func c10Mask(b []byte) string {
 
 var c10Cfg = RCfg{Name: "svc.example.com", Listens: []RListen{{Addr: "127.0.0.1", UDP: 5060, Backends: []string{"udp://127.0.1.1:7000"}}}}
 
+// two listens entries with a UDP listener each: odd positions go to the second one
+var c10Cfg2 = RCfg{Name: "svc.example.com", Listens: []RListen{{Addr: "127.0.0.1", UDP: 5060, Backends: []string{"udp://127.0.1.1:7000"}}, {Addr: "127.0.0.2", UDP: 5060, Backends: []string{"udp://127.0.1.3:7000"}}}}
+
+func c10Lst(two bool, i int) string {
+	if two && i%2 == 1 {
+		return "127.0.0.2:5060"
+	}
+	return "127.0.0.1:5060"
+}
+
 type c10Case struct {
 	Seq        []string `json:"sequence"`
 	BackToBack bool     `json:"back_to_back"`
@@ -151,7 +161,25 @@ func c10Exec(cs c10Case) (map[int][]string, []string, string) {
 
 var c10Alone = map[string][]string{}
 
-func c10AloneRef(sh string, i int, src string) []string {
+func c10AloneRef(sh string, i int, src string) []string { return c10AloneRefAt(sh, i, src, false) }
+
+func c10AloneRefAt(sh string, i int, src string, two bool) []string {
+	if two {
+		key := fmt.Sprintf("2L/%s/%d/%s", sh, i, src)
+		if r, ok := c10Alone[key]; ok {
+			return r
+		}
+		w := StartRelayWorld(SimOpts{}, c10Cfg2)
+		w.Observe()
+		w.SendUDP(src, c10Lst(true, i), c10Datagram(sh, i))
+		var r []string
+		for _, p := range w.Observe().Pkts {
+			r = append(r, p.To+" "+c10Mask(p.Data))
+		}
+		w.Close()
+		c10Alone[key] = r
+		return r
+	}
 	key := fmt.Sprintf("%s/%d/%s", sh, i, src)
 	if r, ok := c10Alone[key]; ok {
 		return r
@@ -366,7 +394,7 @@ func c10SizeSweep(c *Ctx, idx *int64) {
 
 func init() {
 	addCheck(&Check{ID: "C10", Level: "model_checking",
-		Rule: "all sequences of length 1-3 (thorough 1-4) over a 12-shape datagram alphabet (small, 60 KiB with distinctive filler, with body, declared length larger / much larger / smaller than the payload, cut inside start line / header / blank line / body, blanks only, two messages in one datagram), delivered with quiescence in between (the LIFO pool recycles the dirty buffer) and back-to-back, from one and from two sources, plus {any datagram handled to quiescence, then a burst of three}, plus a size sweep (well-formed datagrams of exactly n bytes for n around every power of two and the MTU up to 65507 - thorough: also every n in 400..4200 - each in nine burst patterns with small / over-declared / equal-sized neighbours); differential oracle: what is relayed for a datagram inside the sequence equals byte for byte (fresh branch masked) what a fresh world relays for it alone, and incomplete / over-declared datagrams are never relayed; schedule exploration of the receive / parse / loop goroutines under the race detector: see the race tier; non-trivial = sequence of at least two datagrams",
+		Rule: "all sequences of length 1-3 (thorough 1-4) over a 12-shape datagram alphabet (small, 60 KiB with distinctive filler, with body, declared length larger / much larger / smaller than the payload, cut inside start line / header / blank line / body, blanks only, two messages in one datagram), delivered with quiescence in between (the LIFO pool recycles the dirty buffer) and back-to-back, from one and from two sources, plus {any datagram handled to quiescence, then a burst of three}, plus a size sweep (well-formed datagrams of exactly n bytes for n around every power of two and the MTU up to 65507 - thorough: also every n in 400..4200 - each in nine burst patterns with small / over-declared / equal-sized neighbours); differential oracle: what is relayed for a datagram inside the sequence equals byte for byte (fresh branch masked) what a fresh world relays for it alone, and incomplete / over-declared datagrams are never relayed; schedule exploration of the receive / parse / loop goroutines under the race detector, for one UDP listener and for two listens entries receiving at the same time: see the race tier; non-trivial = sequence of at least two datagrams",
 		Run:  c10Run,
 		Replay: func(c *Ctx, raw json.RawMessage) string {
 			var cs c10Case
